@@ -3,6 +3,7 @@ monitor: recursive listing with content digests of a pre-populated cache before/
 import json, os
 from vlib import *
 from checks import sysmon
+from checks import C07 as c07
 
 def run(ctx):
     findings = load_findings('C15')
@@ -14,6 +15,8 @@ def run(ctx):
         if rc == 0:
             open(f'{w}/l1.model', 'w').write(''.join(l for l in open(f'{w}/l1.trace') if not l.startswith('#')))
             run_modeld(ctx, 'l1', f'{w}/l1.model', 'l1'); ctx.evaluations += 144
+    # lookups and the start-up scan on the real LruDiskCache (shared with C07): a lookup never changes the entry files
+    c07.lru_tie(ctx, findings, relevant=lambda f: f['kind'] in ('lookup_changed_entries', 'panic'))
     if cargo_harness(ctx, ['h_config']):
         w = ctx.work; n = 2000 if ctx.quick() else 60000
         e = env_offline(); e['VERIF_SEED'] = str(ctx.seed)
